@@ -401,12 +401,31 @@ def _strip_loop(ctx, k, f, neg, extra=None):
             continue
         fa_loop = [x for x in facts_at(lp)]
         paths = body_paths(lp.body)
+        # locals the loop's conditions read that are set before the loop (a fill octet, a sign bit): their value on the
+        # paths that reach the loop, given what the caller fixed (the sign of the value)
+        pre = {}
+        if extra:
+            from .common import path_value
+            wanted = {n_.id for st_ in [lp] for n_ in ast.walk(st_) if isinstance(n_, ast.Name) and isinstance(n_.ctx, ast.Load)} - {"data", "len"}
+            for nm_ in sorted(wanted):
+                vals_ = set()
+                for fp_ in enumerate_paths(f):
+                    if not any(e_.node is lp for e_ in fp_.events):
+                        continue
+                    k_, v_ = path_value(fp_, ev, dict(extra), nm_, upto=lp)
+                    if k_ == "value":
+                        vals_.add(v_)
+                    elif k_ == "unknown":
+                        vals_.add(("?",))
+                if len(vals_) == 1 and ("?",) not in vals_:
+                    pre[nm_] = vals_.pop()
         acc = set()
         for ln in (1, 2, 4):
             for d0 in (0, 1, 0x7F, 0x80, 0xFF):
                 for d1 in (0, 0x7F, 0x80, 0xFF):
                     env = {"len(data)": ln, "data[0]": d0, "data[1]": d1}
                     env.update(extra or {})
+                    env.update(pre)
                     if ev.eval3(lp.test, env) is False:
                         continue
                     if reaches(paths, dels[0], ev, env):
